@@ -320,12 +320,12 @@ func runC18(c *Ctx) {
 		m = 20000
 	}
 	type faCase struct {
-		envs      map[string]string
-		cmd       string
-		argv      []string
-		goOut     string
-		expect    []string
-		nontriv   bool
+		envs    map[string]string
+		cmd     string
+		argv    []string
+		goOut   string
+		expect  []string
+		nontriv bool
 	}
 	var cases []faCase
 	for i := 0; i < m; i++ {
